@@ -94,7 +94,7 @@ Section StdField.
   Notation evK := (ev K srcK ap).
   Notation sameK := (same K srcK ap).
 
-  Definition pw (e : expr) : expr := App f_pow [e] [CZ 2] [].
+  Definition pw (e : expr) : expr := App f_pow [e] [CF 2] [].
 
   Lemma ev_sum_sq : forall ins bkw,
     evK (App f_sum (map pw ins) [] bkw) = sumK (map (sq K kmul) (map evK ins)).
@@ -142,14 +142,14 @@ Section StdField.
              (sum_law_sem K k0 k1 kadd kmul ksub kopp kdiv kinv Kth ksqrt other bkw)) in Es
       as (s0 & Es0 & Hds & Hss & Hvs).
     rewrite a_reduce_unbatched in Es0.
-    assert (Edd2 : default_dim d' (a_scalar_op f_pow (CZ 2) [] a) = Ok d') by exact Edd.
+    assert (Edd2 : default_dim d' (a_scalar_op f_pow (CF 2) [] a) = Ok d') by exact Edd.
     rewrite Edd2 in Es0. cbn [bind] in Es0.
-    change (find_dim d' (xdims (a_scalar_op f_pow (CZ 2) [] a))) with (find_dim d' (xdims a)) in Es0.
+    change (find_dim d' (xdims (a_scalar_op f_pow (CF 2) [] a))) with (find_dim d' (xdims a)) in Es0.
     rewrite Ek in Es0.
     rewrite a_reduce_unbatched, Edd. cbn [bind]. rewrite Ek.
     (* the three unbatched reductions, cell by cell *)
     set (cm := reduce_core f_mean bkw k a) in *.
-    set (cs := reduce_core f_sum bkw k (a_scalar_op f_pow (CZ 2) [] a)) in *.
+    set (cs := reduce_core f_sum bkw k (a_scalar_op f_pow (CF 2) [] a)) in *.
     set (cr := reduce_core f_std bkw k a).
     set (P1 := fun e e0 : expr => exists ins, List.length ins = n /\
                  e = App f_mean ins [] bkw /\ e0 = App f_std ins [] bkw).
@@ -200,7 +200,7 @@ Section StdField.
     destruct keep.
     - destruct (expand_dims_rel P1 _ _ _ _ _ _ Hc1 Em0) as (r0 & Er0 & Hr1).
       destruct (expand_dims_rel P2 _ _ _ _ _ _ Hc2 Es0) as (r0' & Er0' & Hr2).
-      change (kept_label (nth k (xdims (a_scalar_op f_pow (CZ 2) [] a)) dflt_dim))
+      change (kept_label (nth k (xdims (a_scalar_op f_pow (CF 2) [] a)) dflt_dim))
         with (kept_label (nth k (xdims a) dflt_dim)) in Er0'.
       rewrite Er0 in Er0'. inversion Er0'; subst r0'. clear Er0'.
       exists r0. split; [exact Er0|]. apply Hfin; [exact Hr1|exact Hr2| |].
